@@ -87,7 +87,7 @@ func namedElem(t types.Type) string {
 
 func runLIT(c *Ctx, r *Result, rule string) int {
 	n := 0
-	evalFn := c.W.Fn("jsonata.eval")
+	evalFn := evalDispatchFn(c)
 	if evalFn == nil {
 		r.LoseAnchor("LIT: jsonata.eval not found")
 		return 0
